@@ -22,6 +22,12 @@ pub fn generate(r: &mut Prng, seed: u64, run: u64) -> Scenario {
     // the Builder keeps names of any length (only the binary format cuts them): sometimes over-long symbols
     cfg.names = if r.chance(1, 10) { 3 } else { cfg.names.min(1) };
     cfg.n_terms = cfg.n_terms.min(25);
+    if run % 50 == 25 {
+        // a chain deeper than any fixed recursion bound one might be tempted to add (valid calls must stay valid)
+        cfg.n_terms = r.urange(36, 80);
+        cfg.shape = 0;
+        cfg.extra_roots = false;
+    }
     cfg.max_recs = [r.urange(0, 5), r.urange(0, 4), r.urange(0, 4)];
     let facts = gen_facts(r, &cfg);
     // drop fault: 0-2 term facts are lost (never the std roots: that is C19's clause)
